@@ -251,6 +251,11 @@ fn main() {
             }
             std::fs::write(&args[3], Value::Array(out).to_string()).unwrap();
         }
+        Some("fmt-roundtrip") => {
+            // sccv fmt-roundtrip <spec.json> <out.ndjson>
+            let spec: Value = serde_json::from_str(&std::fs::read_to_string(&args[2]).unwrap()).unwrap();
+            replay::fmt_roundtrip(&spec, std::path::Path::new(&args[3]));
+        }
         Some("cdriver") => {
             // sccv cdriver <dir> <max number of arguments>: instantiate the repository's own C driver and io runtime
             let dir = &args[2];
